@@ -155,7 +155,7 @@ type wrapWatch struct {
 	v0       snapshot
 	echo0    map[*tracked][]string
 	ipcp0    map[*tracked][]string
-	foreign  map[int]bool // stations that sent anything since the baseline
+	foreign  map[string]bool // source addresses that sent anything since the baseline
 	kinds    map[kind]bool
 	prefix   string
 	baseline bool
@@ -168,11 +168,11 @@ func (w *wrapWatch) begin() {
 		w.echo0[tr], w.ipcp0[tr] = w.c.probe(tr)
 	}
 	w.v0 = w.c.snapshot()
-	w.foreign, w.kinds = map[int]bool{}, map[kind]bool{}
+	w.foreign, w.kinds = map[string]bool{}, map[kind]bool{}
 	w.baseline = true
 }
 
-func (w *wrapWatch) sent(s sym) { w.foreign[s.Src] = true; w.kinds[s.K] = true }
+func (w *wrapWatch) sent(s sym) { w.foreign[s.srcMAC().String()] = true; w.kinds[s.K] = true }
 
 // end judges every tracked session none of whose owner's frames (other than the
 // probes, which never change a session) lie between begin and end.
@@ -189,7 +189,7 @@ func (w *wrapWatch) end(desc string) (compared int) {
 			ob.count(w.prefix+"_tracked_session_not_live_at_baseline(not judged)", 1)
 			continue
 		}
-		if w.foreign[tr.ls.Owner] {
+		if w.foreign[peerMACs[tr.ls.Owner].String()] {
 			ob.count(w.prefix+"_tracked_session_whose_owner_also_sent_frames(not judged across the burst)", 1)
 			continue
 		}
